@@ -386,3 +386,24 @@ Theorem h_run_v_const rk p lam targets steps : forall st,
 Proof.
   induction steps as [|s tl IH]; intros st; [reflexivity|]. cbn [map h_run_v h_run fst snd]. rewrite IH. reflexivity.
 Qed.
+
+(* ================================================================== F. which target each cell of a trainer sees *)
+(* an explicit forward(target) reaches every cell *)
+Theorem targets_used_explicit v dflts : targets_used RN (Some v) dflts = targets_doc RN (Some v) dflts.
+Proof. induction dflts as [|d tl IH]; [reflexivity|]. cbn [targets_used targets_doc map] in *. rewrite IH. reflexivity. Qed.
+(* forward(None): the first cell sees its own default ... *)
+Theorem targets_used_first d tl : hd None (targets_used RN None (d :: tl)) = hd None (targets_doc RN None (d :: tl)).
+Proof. destruct d; reflexivity. Qed.
+(* ... and all cells do when their defaults coincide *)
+Theorem targets_used_same_default d n : targets_used RN None (repeat (Some d) n) = targets_doc RN None (repeat (Some d) n).
+Proof.
+  destruct n as [|n]; [reflexivity|]. cbn [repeat targets_used targets_doc map]. f_equal.
+  rewrite targets_used_explicit. unfold targets_doc. induction n as [|n IH]; [reflexivity|]. cbn [repeat map]. rewrite IH. reflexivity.
+Qed.
+(* REFUTED in general: with different per-cell defaults the later cells are regulated toward the FIRST cell's target *)
+Theorem target_carryover_refuted :
+  exists dflts : list (option R), targets_used RN None dflts <> targets_doc RN None dflts /\
+    targets_used RN None dflts = [Some (1/4); Some (1/4)] /\ targets_doc RN None dflts = [Some (1/4); Some (3/4)].
+Proof.
+  exists [Some (1/4); Some (3/4)]. split; [|split; reflexivity]. cbn. intros E. inversion E. lra.
+Qed.
